@@ -23,7 +23,7 @@ RULE = (
     ' Further dimensions: a DC without bind time feature negotiation, no server argument (SRV lookup through the DNS seam), the sync API called from inside a running event loop.'
 )
 ASSUME = ["reference DC = my reading of MS-GKDI / MS-RPCE, calibrated on the captured material", "pyspnego NTLM for the authenticated runs"]
-BOUND = {"quick": "every configuration with <= 2 deviations from the base over 19 dimensions (10 of the caller / key configuration, 9 of the conforming DC's shape; 39 alternative values) + (hash x kind x op x api) product", "thorough": "<= 3 deviations over the same 19 dimensions; (25 positions x 4 hashes x 4 kinds x op x api), other dimensions cycled"}
+BOUND = {}  # filled in below DEVIATIONS (the counts are taken from the table itself)
 
 HASHES = ["SHA1", "SHA256", "SHA384", "SHA512"]
 KINDS = ["seed", "DH", "ECDH_P256", "ECDH_P384"]
@@ -65,6 +65,7 @@ DEVIATIONS: t.Dict[str, t.List[t.Any]] = {
     "dc.name_style": ["unicode"],  # domain / forest names with non-ASCII and non-BMP characters
     "dc.forest": ["shorter", "longer"],
     "dc.btfn": [False],
+    "dc.epm_list": ["np-first", "np-long-first", "np-both-sides"],  # the endpoint mapper lists other bindings of the interface (named pipe towers of other lengths) beside the TCP one
     "dc.server": ["lookup"],  # (client side) no server argument: the DC is found through the SRV lookup (answered by the DNS seam with this DC)
     "dc.caller": ["in-loop"],  # (client side) the SYNC api is called from code that runs inside an event loop (a coroutine, a web handler, a notebook cell)  # the DC (and its endpoint mapper) does not implement bind time feature negotiation
     "dc.eph": ["zlead"],
@@ -72,6 +73,8 @@ DEVIATIONS: t.Dict[str, t.List[t.Any]] = {
 }
 
 
+_ND, _NV, _NDC = len(DEVIATIONS), sum(len(v) for v in DEVIATIONS.values()), sum(1 for k in DEVIATIONS if k.startswith("dc."))
+BOUND.update({"quick": f"every configuration with <= 2 deviations from the base over {_ND} dimensions ({_ND - _NDC} of the caller / key configuration, {_NDC} of the conforming DC's shape and the calling environment; {_NV} alternative values) + (hash x kind x op x api) product", "thorough": f"<= 3 deviations over the same {_ND} dimensions; (25 positions x 4 hashes x 4 kinds x op x api), other dimensions cycled"})
 _zlead: t.Dict[t.Any, bytes] = {}
 
 
@@ -123,6 +126,16 @@ def run_cfg(seed: int, c: Cfg):
         shape["envelope_override"] = lambda e: e._replace(flags={2: 0, 1: 3}.get(e.flags, e.flags))
     dc = refdc.DC([rk], now=now if c.op == "protect" else (L0, 31, 31), authorised=c.kind == "seed", domain=dom, forest=forest, sec=c.sec, sig_size=c.sig,
                   cover=shape.pop("cover", "exact"), header_sign=shape.pop("header_sign", True), isd_port=shape.pop("isd_port", refdc.ISD_PORT))
+    epm_list = shape.pop("epm_list", None)
+    if epm_list:
+        from ref import epm as _epm
+
+        def _np(pipe: str, host: str):
+            return [_epm.uuid_floor(refdc.rpc.ISD_KEY), _epm.uuid_floor(refdc.rpc.NDR), _epm.rpc_co_floor(0), (_epm.P_PIPE, b"", pipe.encode() + b"\x00"), (_epm.P_NETBIOS, b"", host.encode() + b"\x00")]
+
+        tcp_ = _epm.tcpip_tower(refdc.rpc.ISD_KEY, refdc.rpc.NDR, dc.isd_port, 0xC0A83865)
+        dc.epm_towers = {"np-first": [_np("\\pipe\\lsass", "\\\\DC01"), tcp_], "np-long-first": [_np("\\PIPE\\protected_storage", "\\\\DC-01"), _np("\\pipe\\x", "\\\\D"), tcp_],
+                         "np-both-sides": [_np("\\pipe\\ab", "\\\\DC1"), tcp_, _np("\\pipe\\lsass", "\\\\DC01")]}[epm_list]
     legs = shape.get("server_legs", 1)
     for k_, v_ in shape.items():
         assert hasattr(dc, k_), k_
